@@ -10,7 +10,7 @@ def-use / dominance obligations.
 """
 import ast
 
-from ..core.astutil import norm, ParentMap
+from ..core.astutil import where_unpack, norm, ParentMap
 from ..core.cfg import CFG
 from ..core.loader import AnalysisError, walk_no_nested
 from ..core.pattern import Matcher
@@ -479,11 +479,11 @@ def _single(env, nm):
 def _holes(m, loop, M, node):
     """name bound by `X, = np.where(M[:, node] == 0)` (or the row form; symmetric matrix) inside the loop"""
     for s in ast.walk(loop):
-        if isinstance(s, ast.Assign) and len(s.targets) == 1 and isinstance(s.targets[0], ast.Tuple) and len(s.targets[0].elts) == 1 \
-                and isinstance(s.targets[0].elts[0], ast.Name):
-            if m.match(s.value, 'np.where(%s[:, %s] == 0)' % (M, node)) or m.match(s.value, 'np.where(%s[%s, :] == 0)' % (M, node)) \
-                    or m.match(s.value, 'np.where(%s[%s] == 0)' % (M, node)):
-                return s.targets[0].elts[0].id
+        wu = where_unpack(s)
+        if wu is not None and isinstance(wu[0], ast.Name):
+            if m.match(wu[1], '%s[:, %s] == 0' % (M, node)) or m.match(wu[1], '%s[%s, :] == 0' % (M, node)) \
+                    or m.match(wu[1], '%s[%s] == 0' % (M, node)):
+                return wu[0].id
     return None
 
 
